@@ -848,13 +848,21 @@ func finalQuiet(w *World, x *vrt.Exec) {
 	if closedBeforeDrain(w, x) != "" {
 		return
 	}
-	from := w.goalAt + w.sc.IdleAfter*2/3
+	// "left alone" counts from the last transport fault as well: a fault
+	// that hits a retransmission during the idle period starts another
+	// recovery (with a resend period of several seconds in some
+	// configurations), which is not what this oracle is about
+	since := w.goalAt
+	if w.lastFaultAt > since {
+		since = w.lastFaultAt
+	}
+	from := since + w.sc.IdleAfter*2/3
 	for _, l := range []*Link{w.c2s, w.s2c} {
 		for _, r := range l.wire {
 			if r.At >= from && r.At <= w.endAt && strings.HasPrefix(pktName(r.Data), "DATA") {
 				w.fail("progress/still-retransmitting/"+l.name,
-					"%s: %s transmitted at %v; every message had been delivered and the applications were idle since %v, so retransmission should have stopped long before",
-					l.name, pktName(r.Data), r.At, w.goalAt)
+					"%s: %s transmitted at %v; every message had been delivered, the applications were idle since %v and the transport reliable since %v, so retransmission should have stopped long before",
+					l.name, pktName(r.Data), r.At, w.goalAt, w.lastFaultAt)
 				return
 			}
 		}
